@@ -89,7 +89,24 @@ func up(ex bool, s string) string {
 
 func (r *rend) varName(i int) string  { return up(r.s.Decls[i-1].Ex, "v") + fmt.Sprint(r.vnum[i-1]) }
 func (r *rend) funcName(i int) string { return up(r.s.Decls[i-1].Ex, "f") + fmt.Sprint(r.fnum[i-1]) }
-func (r *rend) typeName(i int) string { return "T" + fmt.Sprint(r.fnum[i-1]) }
+func (r *rend) typeName(i int) string {
+	// a rendering dimension with unchanged prediction: in every other program (by the
+	// shape of the scenario, so that a replay renders the same text) receiver types have
+	// one-letter names, so that linkname symbols take their shortest form "(*A).m"
+	const letters = "ABCDEGHJKNPQSUWYZ"
+	if n := r.fnum[i-1]; shortNames(r.s) && n >= 1 && n <= len(letters) {
+		return letters[n-1 : n]
+	}
+	return "T" + fmt.Sprint(r.fnum[i-1])
+}
+
+func shortNames(s *Scen) bool {
+	n := len(s.Decls)
+	for _, d := range s.Decls {
+		n += d.Pk + len(d.Refs)
+	}
+	return n%2 == 0
+}
 func (r *rend) methName(i int) string { return up(r.s.Decls[i-1].Ex, "m") }
 func (r *rend) lrefName(i int) string { return up(r.s.Decls[i-1].Ex, "l") + fmt.Sprint(r.lnum[i-1]) }
 func (r *rend) mirror(i int) string   { return "R" + fmt.Sprint(r.lnum[i-1]) }
